@@ -359,11 +359,12 @@ Inductive case :=
          (obs_final : option nat) (bodies_complete : bool)
 (* timed retry loop through the real Proxy.ServeHTTP with a fault-scripted transport per host:
    policy, configuration in ticks, Unhealthy flags, fault script per host, interference table
-   (iteration -> host -> made unavailable for that Select), observed events and final status *)
+   (iteration -> host -> made unavailable for that Select), expiry times of the failures other
+   requests have recorded on each host before this one starts, observed events and final status *)
 (* m consecutive Selects of one RoundRobin whose counter was set to robin (also right below 2^32) *)
 | CRRSeq (robin : N) (av : list bool) (obs : list (option nat))
 | CRetryT (p : pol) (c : tcfg) (unhl : list bool) (scripts : list script) (envl : list (list bool))
-          (obs : list tev) (obs_out : tout).
+          (fx0l : list (list N)) (obs : list tev) (obs_out : tout).
 
 Definition pol_select (p : pol) (mf : Z) (pool : list host) : option (option nat) :=
   let av := avail_vec mf pool in
@@ -509,7 +510,7 @@ Definition judge (c : case) : N :=
         (negb (all && Nat.ltb 0 n && Nat.eqb (k * n) m) ||
          forallb (fun j => Nat.eqb (count j) k) (seq 0 n)) in
       verdict agree spec
-  | CRetryT p c unhl scripts envl obs obs_out =>
+  | CRetryT p c unhl scripts envl fx0l obs obs_out =>
       let n := t_n c in
       let unh := fun i => nth i unhl true in
       let scr := fun i => nth i scripts (mk_script [] (mk_astep KFailBefore 0)) in
@@ -517,15 +518,16 @@ Definition judge (c : case) : N :=
       let det := match p with PFirst | PRoundRobin _ | PHash _ | PHeaderValue _ => true | _ => false end in
       let st0 := match p with PRoundRobin r => r | _ => 0 end in
       let fuel := (N.to_nat (t_td c / t_ti c) + 3)%nat in
-      let '(out, tr) := runT N (sel_of p) c unh scr env fuel 0 (fun _ => []) (fun _ => 0%nat) st0 true 0 in
+      let fx0 := fun i => nth i fx0l [] in
+      let '(out, tr) := runT N (sel_of p) c unh scr env fuel 0 fx0 (fun _ => 0%nat) st0 true 0 in
       let agree := negb det || (list_beq tev_eqb tr obs && tout_eqb out obs_out) in
       let dmax := dmax_of n scr in
       let env_clear g := forallb (fun row => negb (nth g row false)) envl in
       let spec :=
         trace_wf scr (fun _ => 0%nat) 0 obs &&
         (* failed hosts are skipped until their failure expires; Select finds a host whenever one is available *)
-        skip_ok (t_mf c) (t_ft c) (fun _ => []) obs &&
-        none_ok n (t_mf c) (t_ft c) unh env 0 (fun _ => []) obs &&
+        skip_ok (t_mf c) (t_ft c) fx0 obs &&
+        none_ok n (t_mf c) (t_ft c) unh env 0 fx0 obs &&
         (* every attempt receives the complete original body when it is buffered *)
         (* ("with retries enabled (non-zero try_duration and fail_timeout) ... every attempt receiving
            the complete original body": also demanded of the single-host pool, which is not buffered) *)
@@ -534,7 +536,8 @@ Definition judge (c : case) : N :=
         (* 200 only from a successful forward to a host that is not unhealthy, 502 only after failures *)
         answered_ok n unh obs obs_out &&
         (* a healthy backend exists and the budget covers the others => answered *)
-        (negb (existsb (fun g => reach_hyp c unh scr g dmax && env_clear g) (seq 0 n)) || is_answered obs_out) &&
+        (negb (existsb (fun g => reach_hyp c unh scr g dmax && env_clear g && (live 0 (fx0 g) <? t_mf c)) (seq 0 n)) ||
+         is_answered obs_out) &&
         (* 502 only once the duration is spent; and when nobody can succeed, 502 within the bound *)
         match obs_out with T502 t => t_td c <=? t | THang => false | TAnswered _ _ => true end &&
         (negb (never_ok n scr && (0 <? t_ti c)) ||
